@@ -205,7 +205,7 @@ Qed.
 Definition post_rules (k : kind) (S' : astate2) (r : res3) : bool :=
   match k with KPush => true | _ => post_okb k S' r end.
 
-Definition stepR (st : CO.state) (S : astate2) (o : CO.op) : option (CO.result * CO.state * astate2) :=
+Definition stepR (st : CoreOps.state) (S : astate2) (o : CoreOps.op) : option (CoreOps.result * CoreOps.state * astate2) :=
   match tr (sview S) st o with
   | None => None
   | Some t =>
@@ -217,7 +217,7 @@ Definition stepR (st : CO.state) (S : astate2) (o : CO.op) : option (CO.result *
       else None
   end.
 
-Fixpoint runR (st : CO.state) (S : astate2) (ops : list CO.op) : option (list CO.result * CO.state * astate2) :=
+Fixpoint runR (st : CoreOps.state) (S : astate2) (ops : list CoreOps.op) : option (list CoreOps.result * CoreOps.state * astate2) :=
   match ops with
   | [] => Some ([], st, S)
   | o :: r =>
@@ -233,8 +233,8 @@ Fixpoint runR (st : CO.state) (S : astate2) (ops : list CO.op) : option (list CO
 
 (** ACCEPTED (rules only): the translation of every call, in the pools and the model state of its
     moment, passes the checker of the documented ownership rules *)
-Definition accepted_rules (ops : list CO.op) : bool :=
-  match runR CO.empty_state S0 ops with Some _ => true | None => false end.
+Definition accepted_rules (ops : list CoreOps.op) : bool :=
+  match runR CoreOps.empty_state S0 ops with Some _ => true | None => false end.
 
 Lemma stepR_stepS h st S o y : Abs3 h S -> stepR st S o = Some y -> stepS st S o = Some y.
 Proof.
@@ -274,25 +274,25 @@ Qed.
 Theorem accepted_rules_iff ops : accepted_rules ops = accepted ops.
 Proof.
   unfold accepted_rules, accepted.
-  destruct (runR CO.empty_state S0 ops) as [y|] eqn:Er.
+  destruct (runR CoreOps.empty_state S0 ops) as [y|] eqn:Er.
   - by rewrite (runR_runS ops _ _ _ _ Abs3_empty PoolsOK_empty Er).
-  - destruct (runS CO.empty_state S0 ops) as [y|] eqn:Es; [|done]. by rewrite (runS_runR _ _ _ _ Es) in Er.
+  - destruct (runS CoreOps.empty_state S0 ops) as [y|] eqn:Es; [|done]. by rewrite (runS_runR _ _ _ _ Es) in Er.
 Qed.
 
 (** THE HISTORY THEOREM FOR THE EXTRACTED INTERPRETER, acceptance by the rules alone *)
 Theorem runR_sim ops h st S xs st2 S2 :
   Abs3 h S -> PoolsOK h st S -> runR st S ops = Some (xs, st2, S2) ->
-  exists h', CO.run_ops nv st ops h = Ret ((xs, st2), h') /\
+  exists h', CoreOps.run_ops nv st ops h = Ret ((xs, st2), h') /\
              run_ops3 (tr_hist st S ops) h = Ret (spec_results3 S (tr_hist st S ops), h') /\
              S2 = spec_run3 S (tr_hist st S ops) /\ Abs3 h' S2 /\ PoolsOK h' st2 S2.
 Proof. intros HA HP E. apply runS_sim; [done|done|]. by eapply runR_runS. Qed.
 
 Theorem history_extracted_rules ops xs st' S' :
-  runR CO.empty_state S0 ops = Some (xs, st', S') ->
-  exists h', CO.run_ops nv CO.empty_state ops empty_heap = Ret ((xs, st'), h') /\
-             run_ops3 (tr_hist CO.empty_state S0 ops) empty_heap =
-               Ret (spec_results3 S0 (tr_hist CO.empty_state S0 ops), h') /\
-             S' = spec_run3 S0 (tr_hist CO.empty_state S0 ops) /\ Abs3 h' S'.
+  runR CoreOps.empty_state S0 ops = Some (xs, st', S') ->
+  exists h', CoreOps.run_ops nv CoreOps.empty_state ops empty_heap = Ret ((xs, st'), h') /\
+             run_ops3 (tr_hist CoreOps.empty_state S0 ops) empty_heap =
+               Ret (spec_results3 S0 (tr_hist CoreOps.empty_state S0 ops), h') /\
+             S' = spec_run3 S0 (tr_hist CoreOps.empty_state S0 ops) /\ Abs3 h' S'.
 Proof. intros E. apply history_extracted. by eapply runR_runS; [apply Abs3_empty|apply PoolsOK_empty|]. Qed.
 
 (** what acceptance by the rules means, spelled out *)
@@ -314,12 +314,12 @@ Qed.
 
 (** the ledger (C07) for the extracted interpreter, acceptance by the rules alone *)
 Theorem ledger_extracted_rules ops xs st' S' :
-  runR CO.empty_state S0 ops = Some (xs, st', S') ->
+  runR CoreOps.empty_state S0 ops = Some (xs, st', S') ->
   exists h1 h2,
-    CO.run_ops nv CO.empty_state ops empty_heap = Ret ((xs, st'), h1) /\ Abs3 h1 S' /\
+    CoreOps.run_ops nv CoreOps.empty_state ops empty_heap = Ret ((xs, st'), h1) /\ Abs3 h1 S' /\
     (forall b, b ∈ lib_live h1 <-> b ∈ owned (a_forest S')) /\
-    CO.live_count h1 = length (owned (a_forest S')) /\
-    delete_roots (roots (a_forest S')) h1 = Ret (tt, h2) /\ lib_live h2 = ∅ /\ CO.live_count h2 = 0%nat /\
+    CoreOps.live_count h1 = length (owned (a_forest S')) /\
+    delete_roots (roots (a_forest S')) h1 = Ret (tt, h2) /\ lib_live h2 = ∅ /\ CoreOps.live_count h2 = 0%nat /\
     (forall b, h_own h1 !! b = Some Foreign -> b ∈ h_live h1 -> b ∈ h_live h2 /\ h_str h2 !! b = h_str h1 !! b).
 Proof. intros E. apply ledger_extracted. by eapply runR_runS; [apply Abs3_empty|apply PoolsOK_empty|]. Qed.
 
@@ -338,7 +338,7 @@ Qed.
 (** one step, acceptance by the rules alone *)
 Theorem stepR_sim h st S o x st1 S1 :
   Abs3 h S -> PoolsOK h st S -> stepR st S o = Some (x, st1, S1) ->
-  exists h', CO.run_op nv st o h = Ret ((x, st1), h') /\
+  exists h', CoreOps.run_op nv st o h = Ret ((x, st1), h') /\
              run_ops3 (step_ops st S o) h = Ret (spec_results3 S (step_ops st S o), h') /\
              S1 = spec_run3 S (step_ops st S o) /\ Abs3 h' S1 /\ PoolsOK h' st1 S1.
 Proof. intros HA HP E. apply stepS_sim; [done|done|]. by eapply stepR_stepS. Qed.
